@@ -81,11 +81,12 @@ def confirm(pid, n):
     ran.append(f"with patch: cargo build (default, verif_hooks) -> {builds}; cargo test --lib -> {m.group(0) if m else out[-200:]}")
     os.makedirs(os.path.join(wt, "tests"), exist_ok=True)
     shutil.copy(os.path.join(d, "demo.rs"), os.path.join(wt, "tests", "demo.rs"))
-    rc_with, out_with = sh(["cargo", "test", "--offline", "--test", "demo"], cwd=wt)
+    feat = (["--features", meta["demo_features"]] if meta.get("demo_features") else [])
+    rc_with, out_with = sh(["cargo", "test", "--offline", "--test", "demo"] + feat, cwd=wt)
     mw = re.findall(r"test result: .*", out_with)
     ran.append(f"with patch: cargo test --test demo -> exit {rc_with}; {mw[-1] if mw else out_with[-200:]}")
     sh("git checkout -- src Cargo.toml", cwd=wt)
-    rc_without, out_without = sh(["cargo", "test", "--offline", "--test", "demo"], cwd=wt)
+    rc_without, out_without = sh(["cargo", "test", "--offline", "--test", "demo"] + feat, cwd=wt)
     mo = re.findall(r"test result: .*", out_without)
     ran.append(f"without patch: cargo test --test demo -> exit {rc_without}; {mo[-1] if mo else out_without[-200:]}")
     sh("git checkout -- . && rm -rf tests", cwd=wt)
